@@ -6,6 +6,7 @@ import (
 	"sort"
 	"strconv"
 	"strings"
+	"time"
 
 	"verifharness/kit"
 )
@@ -298,6 +299,7 @@ func (e *exec) settle() bool {
 	if err != nil && e.err == nil {
 		e.err = err
 		e.tags["not-quiescent"] = true
+		e.tags["stuck"] = true
 		return false
 	}
 	return err == nil
@@ -347,6 +349,43 @@ func (e *exec) enabled(c choice) bool {
 	return false
 }
 
+// watchdog: real time the harness waits for a thread it has just stimulated
+const patience = 3 * time.Second
+
+func (e *exec) stuck(what string) {
+	if e.err == nil {
+		e.err = fmt.Errorf("stuck: %s; %s", what, e.r.describePending())
+		e.tags["stuck"] = true
+	}
+}
+
+func (e *exec) send(part *participant, c apiCmd) bool {
+	select {
+	case part.cmds <- c:
+		return true
+	case <-time.After(patience):
+		e.stuck(fmt.Sprintf("API caller of participant %d does not take its next call (%s)", part.idx, c.kind))
+		return false
+	}
+}
+
+func (e *exec) perform(pc *pcall, o string) bool {
+	select {
+	case pc.enter <- o:
+	case <-time.After(patience):
+		e.stuck("a held storage call does not take its outcome")
+		return false
+	}
+	select {
+	case pc.res = <-pc.result:
+	case <-time.After(patience):
+		e.stuck("the backend does not return from " + pc.op)
+		return false
+	}
+	pc.done = true
+	return true
+}
+
 // apply executes one stimulus and records the batch it caused; false = not enabled (skipped)
 func (e *exec) apply(c choice) bool {
 	if e.err != nil || !e.enabled(c) {
@@ -357,7 +396,9 @@ func (e *exec) apply(c choice) bool {
 	case "acq":
 		a, part := e.api[c.P], e.r.parts[c.P]
 		vs := strconv.Itoa(c.V)
-		part.cmds <- apiCmd{kind: "acq", k: c.K, v: vs, d: c.D}
+		if !e.send(part, apiCmd{kind: "acq", k: c.K, v: vs, d: c.D}) {
+			break
+		}
 		if e.vals[c.P] == nil {
 			e.vals[c.P] = map[string]bool{}
 		}
@@ -378,7 +419,9 @@ func (e *exec) apply(c choice) bool {
 		}
 	case "rel":
 		a, part := e.api[c.P], e.r.parts[c.P]
-		part.cmds <- apiCmd{kind: "rel", k: c.K}
+		if !e.send(part, apiCmd{kind: "rel", k: c.K}) {
+			break
+		}
 		if !e.settle() {
 			break
 		}
@@ -394,7 +437,9 @@ func (e *exec) apply(c choice) bool {
 		}
 	case "cln":
 		a, part := e.api[c.P], e.r.parts[c.P]
-		part.cmds <- apiCmd{kind: "cln"}
+		if !e.send(part, apiCmd{kind: "cln"}) {
+			break
+		}
 		if !e.settle() {
 			break
 		}
@@ -410,9 +455,9 @@ func (e *exec) apply(c choice) bool {
 	case "eff":
 		gid, _ := e.threadGid(c.T)
 		pc := e.r.pend(gid)
-		pc.enter <- c.O
-		pc.res = <-pc.result
-		pc.done = true
+		if !e.perform(pc, c.O) {
+			break
+		}
 		if !e.settle() {
 			break
 		}
@@ -432,6 +477,14 @@ func (e *exec) apply(c choice) bool {
 				e.emit(fmt.Sprintf("ApiCadEff %d %s", p, o), resTerm(pc.res))
 				a.ph = "clncadret"
 				e.noteCad(p, pc)
+			default: // a storage call the model does not have at this point: named by its kind
+				e.tags["unexpected-storage-call"] = true
+				if pc.op == "ins" {
+					e.emit(fmt.Sprintf("InsEff %d %s", p, o), resTerm(pc.res))
+				} else {
+					e.emit(fmt.Sprintf("ApiCadEff %d %s", p, o), resTerm(pc.res))
+				}
+				a.ph = "xret"
 			}
 		} else {
 			l := e.liByGid(gid)
@@ -446,6 +499,15 @@ func (e *exec) apply(c choice) bool {
 				e.emit(fmt.Sprintf("GCadEff %d %s", l.id, o), resTerm(pc.res))
 				l.ph = "cadret"
 				e.noteCad(l.p, pc)
+			default:
+				e.tags["unexpected-storage-call"] = true
+				if pc.op == "cas" {
+					e.emit(fmt.Sprintf("CasEff %d %s", l.id, o), resTerm(pc.res))
+					l.ph, l.res = "casret", pc.res
+				} else {
+					e.emit(fmt.Sprintf("GCadEff %d %s", l.id, o), resTerm(pc.res))
+					l.ph = "cadret"
+				}
 			}
 		}
 		e.tags["outcome:"+c.O] = true
@@ -466,6 +528,12 @@ func (e *exec) apply(c choice) bool {
 			switch a.ph {
 			case "insret":
 				ret := part.takeRet()
+				if pc2 := e.r.pend(part.gid); ret == nil && pc2 != nil {
+					e.tags["unexpected-storage-call"] = true
+					e.emitGate(fmt.Sprintf("InsRet %d", p), pc2)
+					a.ph = "x"
+					break
+				}
 				switch {
 				case ret != nil && ret.ctx != nil:
 					l := &liM{id: len(e.lis), p: p, k: a.k, v: a.v, d: a.d, ctx: ret.ctx, ph: "wait", last: e.r.nowNs()}
@@ -484,6 +552,29 @@ func (e *exec) apply(c choice) bool {
 					e.emit(fmt.Sprintf("InsRet %d", p), "ONone")
 				}
 				a.ph = "idle"
+			case "xret":
+				// after an unexpected call: another call, the return of the API call, or blocked
+				ret := part.takeRet()
+				switch pc2 := e.r.pend(part.gid); {
+				case pc2 != nil:
+					e.emitGate(fmt.Sprintf("ApiCadRet %d", p), pc2)
+					a.ph = "x"
+				case ret != nil && ret.ctx != nil:
+					l := &liM{id: len(e.lis), p: p, k: a.k, v: a.v, d: a.d, ctx: ret.ctx, ph: "wait", last: e.r.nowNs()}
+					e.bindNew(l)
+					e.held[p][a.k] = true
+					e.lis = append(e.lis, l)
+					e.emit(fmt.Sprintf("ApiCadRet %d", p), "ONone")
+					e.emit(fmt.Sprintf("InsRet %d", p), fmt.Sprintf("ORetCtx %d", l.id))
+					a.ph = "idle"
+				case ret != nil:
+					e.emit(fmt.Sprintf("ApiCadRet %d", p), "ONone")
+					e.emit(fmt.Sprintf("InsRet %d", p), "ORetNil")
+					a.ph = "idle"
+				default:
+					e.emit(fmt.Sprintf("ApiCadRet %d", p), "ONone")
+					a.ph = "relwait"
+				}
 			case "relcadret":
 				e.emit(fmt.Sprintf("ApiCadRet %d", p), "ONone")
 				a.ph = "relwait"
